@@ -85,9 +85,12 @@ fn main() {
     let _ = w.join();
     let text = String::from_utf8_lossy(&out.stdout);
     let mut fails: Vec<String> = vec![];
+    let mut diffs: Vec<String> = vec![];
     let mut summary = String::new();
     for l in text.lines() {
-        if l.starts_with("NETFAIL ") {
+        if l.starts_with("NETDIFF ") {
+            diffs.push(l.to_string());
+        } else if l.starts_with("NETFAIL ") {
             fails.push(l.to_string());
         } else if l.starts_with("netreplay-summary") {
             summary = l.to_string();
@@ -128,7 +131,8 @@ fn main() {
         .collect();
     let sample = runs.iter().find(|(_, _, t)| t.iter().any(|l| l.contains("deadlock"))).or(runs.first());
     let rep = format!(
-        "{{\"histories\":{},\"summary\":{},\"fails\":{},\"failing\":[{}],\"deadlocks\":{},\"timeouts\":{},\"panics\":{},\"events\":{{{}}},\"sample\":{{\"script\":{},\"trace\":{}}}}}",
+        "{{\"diffs\":{},\"histories\":{},\"summary\":{},\"fails\":{},\"failing\":[{}],\"deadlocks\":{},\"timeouts\":{},\"panics\":{},\"events\":{{{}}},\"sample\":{{\"script\":{},\"trace\":{}}}}}",
+        jarr(&diffs.iter().take(5).cloned().collect::<Vec<_>>()),
         runs.len(),
         jstr(&summary),
         fails.len(),
@@ -145,5 +149,5 @@ fn main() {
         None => println!("{rep}"),
     }
     eprintln!("netcorr: histories={} fails={} {}", runs.len(), fails.len(), summary);
-    std::process::exit(if fails.is_empty() && !summary.is_empty() { 0 } else { 3 });
+    std::process::exit(if fails.is_empty() && diffs.is_empty() && !summary.is_empty() { 0 } else { 3 });
 }
